@@ -143,6 +143,7 @@ def r2(ctx, cfg):
         a = P.call_args(qf, adds[0][1], adds[0][0])
         ok = is_param_field(a[0], "shares", "rewards") and contains(a[1], lambda x: x[0] == "call" and x[1] == "staking::Shares::share_of_rewards")
     ctx.ob(R, qf.key, "shown=accrued+new-share", ok, "the shown reward is not shares.rewards + share_of_rewards(..)", fn=qf, sample="shares.rewards + shares.share_of_rewards(..)")
+    shown_is_total(ctx, cfg, R)
     # payout path: accrual adds the same share to shares.rewards
     from rules import stakes
     ok = False
@@ -423,3 +424,42 @@ def r7(ctx, cfg):
             ok = ok and not out
         ctx.ob(R, ek, "SetWithdrawAddress-stores(sender -> validated address)", ok, "the SetWithdrawAddress arm does not store (sender -> addr_validate(address)) before succeeding",
                fn=e, sample="set_withdraw_address(storage, &sender, &api.addr_validate(&address)?)?")
+
+
+def shown_is_total(ctx, cfg, R="C15.R2"):
+    """every answer of get_rewards_internal is the whole outstanding reward: floor(shares.rewards + share of what accrued since
+    the last calculation), in the bonded denomination - no path answers with something else (a "nothing new accrued" shortcut
+    that answers zero forgets what was credited before)"""
+    F, P = cfg.facts, cfg.prov
+    key = SK + "get_rewards_internal"
+    f = F.fn(key)
+    if f is None:
+        return
+    bad = []
+    n = 0
+    for site, v in q.success_return_sites(P, f):
+        n += 1
+        o = peel(v)
+        pay = peel(o[2][0][1]) if o[0] == "agg" and o[1].endswith("Result::Ok") and o[2] else o
+        amt = den = None
+        if pay[0] == "agg" and pay[1].startswith("cosmwasm_std::Coin"):
+            d = dict(pay[2])
+            amt, den = d.get("amount"), d.get("denom")
+        elif pay[0] == "call" and pay[1] in ("cosmwasm_std::coin", "cosmwasm_std::Coin::new") and len(pay[2]) == 2:
+            amt, den = pay[2]
+        ok = amt is not None
+        if ok:
+            a = peel(amt)
+            while a[0] == "call" and len(a[2]) == 1 and a[1].rsplit("::", 1)[-1] in ("u128", "into", "from"):
+                a = peel(a[2][0])
+            ok = a[0] == "call" and a[1].endswith("Uint128::mul_floor") and len(a[2]) == 2
+            if ok:
+                sm = peel(a[2][1])
+                ok = sm[0] == "call" and sm[1].endswith("Add::add") and \
+                    {("acc" if is_param_field(x, "shares", "rewards") else "new" if contains(x, lambda y: y[0] == "call" and y[1] == "staking::Shares::share_of_rewards") else "?")
+                     for x in sm[2]} == {"acc", "new"}
+            ok = ok and contains(den, lambda x: x[0] == "field" and x[2] == "bonded_denom")
+        if not ok:
+            bad.append(fmt(pay)[:100])
+    ctx.ob(R, key, "every-answer-is-accrued-plus-new-share", n >= 1 and not bad, "get_rewards_internal can answer %s" % bad, fn=f,
+           sample="Coin { bonded_denom, floor(shares.rewards + share_of_rewards(..)) } on every path")
